@@ -118,13 +118,14 @@ theorem C09_neighbors_spec (g : Grid) (hi : Inv g) (cells : List Coord) (hnd : c
 
 /-- **`get_cell_list_contents` / `iter_cell_list_contents` for arbitrary integer coordinates** (they index
     `self._grid[x][y]` directly): in-grid coordinates are read as they are — the answer is `cellsContents` of the
-    list, specified by `C09_neighbors_spec` —; whenever the call returns, every coordinate denoted a cell of the
-    grid (Python's aliasing of `-size .. -1`); a coordinate beyond that raises IndexError and nothing is returned -/
+    list, specified by `C09_neighbors_spec` —; whenever the call returns, the cells read are, position by position, the
+    cells the coordinates denote under Python's aliasing of `-size .. -1` (`Grid.aliasCell`: a negative index counts from the
+    end), all of them cells of the grid; a coordinate beyond that raises IndexError and nothing is returned -/
 theorem C09_cell_list_contents_any_integers (g : Grid) (hw : 0 < g.w) (hh : 0 < g.h) (ps : List Coord) :
     ((∀ p ∈ ps, g.inGrid p) → g.rawCells ps = .ok ps) ∧
-    (∀ cs, g.rawCells ps = .ok cs → cs.length = ps.length ∧ ∀ c ∈ cs, g.inGrid c) ∧
+    (∀ cs, g.rawCells ps = .ok cs → cs = ps.map g.aliasCell ∧ cs.length = ps.length ∧ ∀ c ∈ cs, g.inGrid c) ∧
     ((∃ p ∈ ps, p.1 < -g.w ∨ g.w ≤ p.1 ∨ p.2 < -g.h ∨ g.h ≤ p.2) → ∃ e, g.rawCells ps = .error e) :=
-  ⟨rawCells_inGrid g ps, rawCells_ok g ps, rawCells_error g hw hh ps⟩
+  ⟨rawCells_inGrid g ps, fun cs h => ⟨rawCells_ok_alias g ps cs h, rawCells_ok g ps cs h⟩, rawCells_error g hw hh ps⟩
 
 /-- so the neighbours of a query are the agents standing on cells in range -/
 theorem C09_get_neighbors_exact (g : Grid) (hi : Inv g) (hw : 0 < g.w) (hh : 0 < g.h) (k : NKey) (l : List Coord)
